@@ -32,6 +32,12 @@ static J apply_transport(std::vector<std::vector<uint8_t>> &tus, const J &ops, c
         else if (kind == "splice") { size_t j = (size_t)o.geti("from", 0) % orig.size(); if (!tus[k].empty() && !orig[j].empty()) { size_t at = (size_t)o.geti("at", 0) % tus[k].size(); size_t at2 = (size_t)o.geti("at2", 0) % orig[j].size(); tus[k].resize(at); tus[k].insert(tus[k].end(), orig[j].begin() + at2, orig[j].end()); bump(kind); } }
         else if (kind == "insert") { Rng r((uint64_t)o.geti("seed", 1)); size_t n = (size_t)o.geti("len", 4); size_t at = tus[k].empty() ? 0 : (size_t)o.geti("at", 0) % tus[k].size(); std::vector<uint8_t> d(n); for (auto &x : d) x = (uint8_t)r.next(); tus[k].insert(tus[k].begin() + at, d.begin(), d.end()); bump(kind); }
         else if (kind == "empty") { tus[k].clear(); bump(kind); }
+        else if (kind == "concat") { // another stream (possibly another picture size) continues on the same handle
+            std::vector<std::vector<uint8_t>> other = load_tus(o.gets("path", "")); size_t keep = (size_t)o.geti("keep", (int64_t)tus.size());
+            if (keep < tus.size()) tus.resize(keep);
+            for (auto &t : other) tus.push_back(t);
+            if (!other.empty()) bump(kind);
+        }
     }
     return fired;
 }
@@ -97,8 +103,8 @@ void run_dec_world() {
             if (e == EB_ErrorNone) { sim_api_enter(); ei = svt_av1_dec_init(h); sim_api_exit(); J r = J::arr(); r.push("dec_init"); r.push((long long)ei); r.push(sim_alloc_counter()); hist.push(r); }
             if (e == EB_ErrorNone && ei == EB_ErrorNone) {
                 int w2 = (W + 1) & ~1, h2 = (H + 1) & ~1; size_t bps = bd > 8 ? 2 : 1; size_t ysz = (size_t)w2 * h2 * bps;
-                std::vector<uint8_t> yb(ysz + 64), ub(ysz / 4 + 64), vb(ysz / 4 + 64);
-                EbSvtIOFormat io; memset(&io, 0, sizeof io); io.luma = yb.data(); io.cb = ub.data(); io.cr = vb.data(); io.y_stride = W; io.cb_stride = io.cr_stride = W / 2; io.width = W; io.height = H;
+                // planes come from malloc: when the picture geometry changes the library free()s and re-allocates them (as SvtAv1DecApp expects)
+                EbSvtIOFormat io; memset(&io, 0, sizeof io); io.luma = (uint8_t *)malloc(ysz + 64); io.cb = (uint8_t *)malloc(ysz / 4 + 64); io.cr = (uint8_t *)malloc(ysz / 4 + 64); io.y_stride = W; io.cb_stride = io.cr_stride = W / 2; io.width = W; io.height = H;
                 io.bit_depth = bd > 8 ? EB_TEN_BIT : EB_EIGHT_BIT; io.color_fmt = EB_YUV420;
                 EbBufferHeaderType ob; memset(&ob, 0, sizeof ob); ob.p_buffer = (uint8_t *)&io; ob.size = sizeof ob;
                 EbAV1StreamInfo si; EbAV1FrameInfo fi; memset(&si, 0, sizeof si); memset(&fi, 0, sizeof fi);
@@ -117,10 +123,10 @@ void run_dec_world() {
                         if (eg == EB_DecNoOutputPicture) break; if (eg != EB_ErrorNone) break;
                         got++;
                         if (s == 0) {
-                            std::vector<uint8_t> p; p.reserve(((size_t)W * H * 3 / 2) * bps);
-                            for (int y = 0; y < H; y++) p.insert(p.end(), yb.data() + (size_t)y * io.y_stride * bps, yb.data() + ((size_t)y * io.y_stride + W) * bps);
-                            for (int y = 0; y < H / 2; y++) p.insert(p.end(), ub.data() + (size_t)y * io.cb_stride * bps, ub.data() + ((size_t)y * io.cb_stride + W / 2) * bps);
-                            for (int y = 0; y < H / 2; y++) p.insert(p.end(), vb.data() + (size_t)y * io.cr_stride * bps, vb.data() + ((size_t)y * io.cr_stride + W / 2) * bps);
+                            int pw = (int)io.width, ph = (int)io.height; std::vector<uint8_t> p; p.reserve(((size_t)pw * ph * 3 / 2) * bps);
+                            for (int y = 0; y < ph; y++) p.insert(p.end(), io.luma + (size_t)y * io.y_stride * bps, io.luma + ((size_t)y * io.y_stride + pw) * bps);
+                            for (int y = 0; y < ph / 2; y++) p.insert(p.end(), io.cb + (size_t)y * io.cb_stride * bps, io.cb + ((size_t)y * io.cb_stride + pw / 2) * bps);
+                            for (int y = 0; y < ph / 2; y++) p.insert(p.end(), io.cr + (size_t)y * io.cr_stride * bps, io.cr + ((size_t)y * io.cr_stride + pw / 2) * bps);
                             uint64_t hh = fnv1a(fnv_init(), p.data(), p.size()); pics.push(hex64(hh)); oh = fnv1a(oh, &hh, 8); outp.push_back(std::move(p));
                         }
                         break; // the decoder outputs at most one picture per temporal unit
@@ -129,6 +135,7 @@ void run_dec_world() {
                     if (hist.a.size() < 5000) { J r = J::arr(); r.push("dec_frame"); r.push((long long)ef); r.push(got); r.push(d0); r.push(sim_decision()); hist.push(r); }
                 }
                 sim_api_enter(); e = svt_av1_dec_deinit(h); sim_api_exit(); { J r = J::arr(); r.push("dec_deinit"); r.push((long long)e); hist.push(r); }
+                free(io.luma); free(io.cb); free(io.cr);
             }
             sim_api_enter(); e = svt_av1_dec_deinit_handle(h); sim_api_exit(); { J r = J::arr(); r.push("dec_deinit_handle"); r.push((long long)e); hist.push(r); }
         }
